@@ -307,6 +307,42 @@ impl C13 {
                     rep.failed("minimum_receive", None, format!("route delivered {d} < minimum_receive {min}"), witness(json!({"operations": operations})));
                 }
             }
+            // forked: the same route with minimum_receive set to exactly what it delivers must
+            // execute, and with one unit more must fail as a whole (whatever the route's shape)
+            if let Some(d) = delivered {
+                let post = w.snapshot();
+                for (bump, want_ok) in [(0u128, true), (1u128, false)] {
+                    w.restore(s.pre_snap);
+                    let mut op = s.op.clone();
+                    if let Op::Pm { msg: pm::ExecuteMsg::ExecuteSwapOperations { minimum_receive, .. }, .. } = &mut op {
+                        *minimum_receive = Some(cosmwasm_std::Uint128::new(d + bump));
+                    }
+                    let out = w.apply(&op);
+                    let mut seen: Vec<String> = vec![];
+                    let revisits = operations.iter().any(|o| {
+                        let id = o.get_pool_identifer();
+                        let r = seen.contains(&id);
+                        seen.push(id);
+                        r
+                    });
+                    let abs = hash_of(&("exact", operations.len(), revisits, want_ok, mag(d)));
+                    if want_ok {
+                        let d2 = parse_events(&out, &w.pm).unwrap_or_default().iter().find_map(|e| if let PoolEv::RouteSummary { return_amount, .. } = e { Some(*return_amount) } else { None });
+                        if out.is_ok() && d2 == Some(d) {
+                            rep.held("minimum_receive", abs, || json!({"hops": operations.len(), "revisits_a_pool": revisits, "delivers": d.to_string(), "minimum_receive": d.to_string(), "result": "executed"}));
+                        } else {
+                            rep.failed("minimum_receive", None, format!("route delivering {d} is refused (or delivers {d2:?}) when minimum_receive is exactly {d}: {}", out.short()), witness(json!({"operations": operations, "delivers": d.to_string()})));
+                        }
+                    } else if out.is_ok() {
+                        rep.failed("minimum_receive", None, format!("route delivering {d} executed although minimum_receive was {}", d + 1), witness(json!({"operations": operations, "delivers": d.to_string(), "minimum_receive": (d + 1).to_string()})));
+                    } else if *w.state() != s.pre_snap.storage {
+                        rep.failed("minimum_receive", None, "route refused for minimum_receive left changes behind".to_string(), witness(json!({"operations": operations})));
+                    } else {
+                        rep.held("minimum_receive", abs, || json!({"hops": operations.len(), "revisits_a_pool": revisits, "delivers": d.to_string(), "minimum_receive": (d + 1).to_string(), "result": "refused as a whole, nothing changed"}));
+                    }
+                }
+                w.restore(&post);
+            }
             // every executed constant-product hop respected the per-hop limit
             if let Ok(tl) = timeline(s.pre, s.post, &evs) {
                 let tol = tol_eff(max_slip);
